@@ -80,15 +80,19 @@ def contains (s input : Segment α) : Res Bool :=
   | .ok false => .ok false
   | .ok true =>
     let a1b1 := b1 - a1
-    if Num.abs a1b1.x >. tiny then
+    -- interpolate along the dominant component of the segment
+    let dx := Num.abs a1b1.x
+    let dy := Num.abs a1b1.y
+    let dz := Num.abs a1b1.z
+    if dx >. tiny && dx >=. dy && dx >=. dz then
       let alpha := (a2.x - a1.x) / a1b1.x
       let beta := (b2.x - a1.x) / a1b1.x
       .ok (inUnitClosed alpha && inUnitClosed beta)
-    else if Num.abs a1b1.y >. tiny then
+    else if dy >. tiny && dy >=. dz then
       let alpha := (a2.y - a1.y) / a1b1.y
       let beta := (b2.y - a1.y) / a1b1.y
       .ok (inUnitClosed alpha && inUnitClosed beta)
-    else if Num.abs a1b1.z >. tiny then
+    else if dz >. tiny then
       let alpha := (a2.z - a1.z) / a1b1.z
       let beta := (b2.z - a1.z) / a1b1.z
       .ok (inUnitClosed alpha && inUnitClosed beta)
@@ -103,17 +107,21 @@ def getIntersectionPt (s input : Segment α) : Option (α × α) :=
   let delta := s.start - input.start
   if Num.abs (delta.dot normal) >. (1e-5 : α) * normal.length then none else
   let tiny : α := 1e-5
-  if Num.abs normal.z >. tiny then
+  -- project along the dominant component of the normal
+  let nx := Num.abs normal.x
+  let ny := Num.abs normal.y
+  let nz := Num.abs normal.z
+  if nz >. tiny && nz >=. nx && nz >=. ny then
     let det := a.y * b.x - a.x * b.y
     let tA := (b.y * delta.x - b.x * delta.y) / det
     let tB := (a.y * delta.x - a.x * delta.y) / det
     some (tA, tB)
-  else if Num.abs normal.x >. tiny then
+  else if nx >. tiny && nx >=. ny then
     let det := a.y * b.z - a.z * b.y
     let tA := (b.y * delta.z - b.z * delta.y) / det
     let tB := (a.y * delta.z - a.z * delta.y) / det
     some (tA, tB)
-  else if Num.abs normal.y >. tiny then
+  else if ny >. tiny then
     let det := a.x * b.z - a.z * b.x
     let tA := (b.x * delta.z - b.z * delta.x) / det
     let tB := (a.x * delta.z - a.z * delta.x) / det
